@@ -19,7 +19,7 @@ RULE = (
     "(a) frames of 3 fitting rows + 2 holdout rows + 1 unexpected row; one fixed effect: every assignment of levels {a,b,c} to the 6 rows (unexpected "
     "also missing) ; two fixed effects: every assignment of the first over {a,b,c} x second over {p,q} on a covering slice; x selected levels {all,[a],[a,b]} "
     "x features {none,[x],[baseline_normalized_margin,x]} x centring on/off x separate-state models {none,[AA],[BB without reporting unit]} x intercept on "
-    "(off only without fixed effects). Oracle: fit and predict column lists equal and ordered intercept / baseline-margin / rest; per effect exactly one "
+    "(off only without fixed effects), each assignment also with repeating row labels (as produced by concatenating frames). Oracle: fit and predict column lists equal and ordered intercept / baseline-margin / rest; per effect exactly one "
     "observed level absorbed; every fitted dummy non-constant on fitting rows; seen level => its indicator, unseen => 1/(k+1) on each fitted level; centring "
     "over all rows; 'other' pooling; state copies only for reporting states. (b) real runs of all three estimators with fixed effects, a covariate that "
     "identifies the unit: every row of every X given to fit/predict is decoded to its unit and must carry that unit's response and weight (fit) or follow "
@@ -96,7 +96,11 @@ def _pool(level, sel):
     return level if level in keep else "other"
 
 
-def _check_featurizer(df, effects, sel, feats, center, states, intercept, viol, cov, ctx):
+def _check_featurizer(df, effects, sel, feats, center, states, intercept, viol, cov, ctx, labels=None):
+    if labels is not None:
+        df = df.copy()
+        df.index = labels
+        cov["frames_with_duplicate_row_labels"] += 1
     import numpy as np
 
     from elexmodel.handlers.data.Featurizer import Featurizer
@@ -218,6 +222,11 @@ def _feat_case(case, cov, viol):
             nt = _check_featurizer(df, effects, sel, feats, center, states, intercept, viol, cov, ctx)
             nontrivial = nontrivial or bool(nt)
             runs += 1
+        # the callers concatenate frames that each carry their own 0..n-1 row labels: labels repeat, also within the holdout rows
+        feats, center, states, intercept = variants[idx % len(variants)]
+        ctx = f"fe1={l1} fe2={l2} selected={sel} features={feats} centre={center} separate_states={states} intercept={intercept} row_labels=[0,1,2,0,0,1]"
+        _check_featurizer(df, effects, sel, feats, center, states, intercept, viol, cov, ctx, labels=[0, 1, 2, 0, 0, 1])
+        runs += 1
     if case["kind"] == "feat1" and case["sel"] == "all":
         # without fixed effects: intercept off / on
         df = _frame(case["assigns"][0])
@@ -416,4 +425,4 @@ def evaluate(case):
     return {"violations": V, "cov": dict(cov), "outcome": sha([v["sig"] for v in V] + [case["kind"], runs]), "nontrivial": nontrivial, "transitions": max(1, runs)}
 
 
-REQUIRED_COUNTERS = {"featurizer_runs": 5000, "holdout_rows_with_unseen_level": 500, "levels_only_outside_fitting_rows": 500, "fit_rows_decoded": 500, "predict_rows_decoded": 200, "predict_rows_unseen_level": 10, "state_copies_checked": 100, "silent_state_no_copy": 100}
+REQUIRED_COUNTERS = {"featurizer_runs": 5000, "holdout_rows_with_unseen_level": 500, "levels_only_outside_fitting_rows": 500, "fit_rows_decoded": 500, "predict_rows_decoded": 200, "predict_rows_unseen_level": 10, "state_copies_checked": 100, "silent_state_no_copy": 100, "frames_with_duplicate_row_labels": 500}
